@@ -363,7 +363,7 @@ impl<T> RelocatableContainer for RelocatableSlotMap<T> {
     unsafe fn new_uninit(capacity: usize) -> Self {
         Self {
             len: 0,
-            idx_to_data_free_list_head: 0,
+            idx_to_data_free_list_head: if capacity == 0 { INVALID } else { 0 },
             idx_to_data: unsafe { RelocatableVec::new_uninit(capacity) },
             idx_to_data_free_list: unsafe { RelocatableVec::new_uninit(capacity) },
             data: unsafe { RelocatableVec::new_uninit(capacity) },
@@ -412,7 +412,7 @@ impl<T> SlotMap<T> {
     pub fn new(capacity: usize) -> Self {
         let mut new_self = Self {
             len: 0,
-            idx_to_data_free_list_head: 0,
+            idx_to_data_free_list_head: if capacity == 0 { INVALID } else { 0 },
             idx_to_data: MetaVec::new(capacity),
             idx_to_data_free_list: MetaVec::new(capacity),
             data: MetaVec::new(capacity),
